@@ -957,7 +957,11 @@ class CircuitTemplate(AbstractBaseTemplate):
                 for n in list(net.keys()):
                     net_tmp = net[n]
                     if isinstance(net_tmp, CircuitTemplate):
-                        for n2 in net_tmp.get_nodes(node_identifier[1:], var_identifier):
+                        try:
+                            matches = net_tmp.get_nodes(node_identifier[1:], var_identifier)
+                        except KeyError:
+                            continue  # this sub-circuit has no member of that name: the wildcard simply does not match it
+                        for n2 in matches:
                             node_key = "/".join((n, n2))
                             if node_key not in nodes:
                                 nodes.append(node_key)
